@@ -175,3 +175,12 @@ def static_args_ok(c):
         z3.Implies(tr(g("unset_fields")), strs(g("unset_fields"))))
 
 
+
+
+def _any_astimezone(ex, v, node, st, rn):
+    """x.astimezone(tz) on a dynamically typed value: an AttributeError unless x is a datetime"""
+    ex.hazard("AttributeError", isinst(v.t, "datetime"), node, "astimezone on a non-datetime")
+    return Val(Dt, dt_utc(av_as_dt(v.t)))
+
+
+Exec.method_handlers[("AnyV", "astimezone")] = _any_astimezone
